@@ -109,6 +109,8 @@ class Explorer:
         self.outcomes = set()
         self.finish_hook = None  # fn(state, history, PRes) -> list of (kind, text)
         self.states_by_depth = []
+        self.bind_depth = 2
+        self.shallow = []      # histories of all states up to bind_depth (for the binding pass)
 
     def _viol(self, kind, label, hist, probe, detail, state=None):
         prop = self.ref.attribute(kind, label)
@@ -214,6 +216,8 @@ class Explorer:
                     else:
                         model_seen.add(ref.key(s2))
                     nxt.append((s2, hist + [ev], d2, t2))
+                    if depth + 1 <= self.bind_depth:
+                        self.shallow.append(hist + [ev])
                 if ctx.too_many():
                     break
             self.states_by_depth.append(len(frontier))
@@ -248,6 +252,17 @@ class Explorer:
                 self._viol("display", (label, k), hist, ev,
                            "%s row %d type %d shows %d, reference says %s" % (k[0], k[1], k[2], got, v), s)
                 return
+
+
+def bind_shallow(ctx, build, system, pool, explorer, tag, emu_flags=("-l",), limit=400):
+    """Binding pass over every state the explorer reached within its first levels: the same
+    histories as real files through the real ovniemu (complete .prv texts and verdict compared)."""
+    prefix = getattr(explorer.pool, "prefix", [])
+    cases = [prefix + h for h in explorer.shallow[:limit]]
+    if not cases:
+        return 0
+    inner = getattr(explorer.pool, "pool", explorer.pool)
+    return binding_cases(ctx, build, system, inner, cases, tag, emu_flags=emu_flags)
 
 
 def binding_cases(ctx, build, system, pool, cases, tag, prv_names=("thread.prv", "cpu.prv"), emu_flags=("-l",)):
